@@ -215,6 +215,25 @@ fn run_c15(ctx: &Ctx) -> Run {
     parallel(threads, |w, run| {
         let mut rng = ctx.rng("C15", w);
         let fr = Frame::new();
+        // exact-edge sweep (not scaled by the budget): points of the 30 dodecahedron edges themselves, as exactly as a unit
+        // vector can be, relative to both adjacent faces - the ratio that decides "on the rim" is 1 up to the rounding of two
+        // independently computed lengths there, which is where an assertion or a strict comparison about it trips
+        for (k, (i, j)) in fr.edges.iter().enumerate() {
+            if k % threads != w {
+                continue;
+            }
+            let m = normalize(add(fr.centres[*i], fr.centres[*j]));
+            let mut ends: Vec<V3> = fr.vertices.clone();
+            ends.sort_by(|a, b| angle(*a, m).partial_cmp(&angle(*b, m)).unwrap());
+            let (va, vb) = (ends[0], ends[1]);
+            let per_edge = if ctx.quick() { 6_000 } else { 60_000 };
+            for q in 0..=per_edge {
+                let t = if q % 3 == 0 { q as f64 / per_edge as f64 } else { rng.range(0.0, 1.0) };
+                let p = normalize(add(scale(va, 1.0 - t), scale(vb, t)));
+                check_sphere_point(run, p, "edge_exact");
+            }
+            run.countn("sphere.edge_exact", per_edge as u64 + 1);
+        }
         let n = ctx.n(6_000_000, 300_000_000) / threads as u64;
         for _ in 0..n {
             if rng.chance(0.6) {
@@ -227,6 +246,10 @@ fn run_c15(ctx: &Ctx) -> Run {
             } else {
                 let (q, class) = hostile_plane_point(&mut rng);
                 let face = rng.below(12) as u8;
+                let (q, face, class) = match crate::loci::substitute_plane(&mut rng) {
+                    Some((q, face)) => (q, face, "plane.located_discontinuity"),
+                    None => (q, face, class),
+                };
                 run.count(class);
                 check_plane_point(run, q, face, class);
                 // small-angle branches: sphere points within 1e-9 of a triangle corner, reached through the inverse
@@ -283,6 +306,28 @@ fn sector(q: P2) -> (i32, bool) {
 
 /// (min barycentric coordinate of q in the triangle its sector/side designates, distance to that triangle's nearest corner)
 /// - the harness' own construction of the 10 + 10 triangles
+/// inside one of the 10 triangles of the face or of the 10 reflected triangles beyond its edges
+pub fn in_projection_domain(q: P2) -> bool {
+    // the 10 inner triangles tile the pentagon; beyond an edge the reflected triangle narrows towards its apex and the map is
+    // only defined between its two slanted sides
+    !sector(q).1 || tri_margin_beyond(q) > 1e-6
+}
+
+/// beyond the face edge: smaller of the barycentric weights of the edge's two end corners (edge midpoint, face vertex)
+fn tri_margin_beyond(q: P2) -> f64 {
+    let (s, _) = sector(q);
+    let quint = ((s + 1) / 2) % 5;
+    let amid = (72.0 * quint as f64).to_radians();
+    let mid = [D_EDGE * amid.cos(), D_EDGE * amid.sin()];
+    let acor = if s % 2 == 0 { (36.0 * (s + 1) as f64).to_radians() } else { (36.0 * s as f64).to_radians() };
+    let cor = [R_VERTEX * acor.cos(), R_VERTEX * acor.sin()];
+    let tri = [[2.0 * mid[0], 2.0 * mid[1]], mid, cor];
+    let det = (tri[1][1] - tri[2][1]) * (tri[0][0] - tri[2][0]) + (tri[2][0] - tri[1][0]) * (tri[0][1] - tri[2][1]);
+    let b0 = ((tri[1][1] - tri[2][1]) * (q[0] - tri[2][0]) + (tri[2][0] - tri[1][0]) * (q[1] - tri[2][1])) / det;
+    let b1 = ((tri[2][1] - tri[0][1]) * (q[0] - tri[2][0]) + (tri[0][0] - tri[2][0]) * (q[1] - tri[2][1])) / det;
+    b1.min(1.0 - b0 - b1)
+}
+
 fn tri_margin(q: P2) -> f64 {
     tri_margin_and_corner_distance(q).0
 }
@@ -572,6 +617,10 @@ fn run_c16(ctx: &Ctx) -> Run {
         for i in 0..n {
             let (q, class) = margin_point(&mut rng);
             let face = rng.below(12) as u8;
+            let (q, face, class) = match crate::loci::substitute_plane(&mut rng) {
+                Some((q, face)) => (q, face, "located_discontinuity"),
+                None => (q, face, class),
+            };
             check_jacobian(run, q, face, class);
             if i % 4 == 0 {
                 let size = rng.log10(2.5, 5.0);
